@@ -133,6 +133,10 @@ TAttached ==
 
 Drift(k, id) == IF id = sid[k] THEN flags ELSE flags \cup {"handler changed its ClientID"}
 Owner(own) == IF own >= 0 THEN SName(own) ELSE IF own = -2 THEN "other-scenario" ELSE "unknown"
+(* own = -3: the scenario gave its sessions the same KCP conversation id, so
+   the packet cannot be attributed by content; it is taken to be the carrier's
+   own (attribution is then judged by the byte streams alone). *)
+OwnerOn(own, k) == IF own = -3 THEN pres(k) ELSE Owner(own)
 
 (* srv.in: UpFrame ; QueueIncoming(k, id) ; KcpInput on a packet whose owner
    is `own`.  The segment number is not logged; every packet is treated as a
@@ -144,7 +148,7 @@ TSrvIn ==
               (IF e.id \in Ids /\ e.id # pres(e.k) THEN {"TagIsPresented"} ELSE {}) \cup
               (IF e.id \notin Ids THEN {"packet queued under an unknown ClientID"} ELSE {})
   /\ IF e.id \in Ids /\ e.own # -1
-       THEN LET t == e.id  o == Owner(e.own) IN
+       THEN LET t == e.id  o == OwnerOn(e.own, e.k) IN
             IF sess[t] = "none" \/ o # conv[t]
               THEN /\ sess' = [sess EXCEPT ![t] = "new"]
                    /\ conv' = [conv EXCEPT ![t] = o]
@@ -159,8 +163,8 @@ TSrvOut ==
   /\ Is("srv.out") /\ Step
   /\ cst[e.k] = "att"
   /\ flags' = Drift(e.k, e.id)
-  /\ misDown' = (misDown \/ Owner(e.own) # pres(e.k))
-  /\ misGot' = (misGot \/ (cli[e.k] = "live" /\ Owner(e.own) # pres(e.k)))
+  /\ misDown' = (misDown \/ OwnerOn(e.own, e.k) # pres(e.k))
+  /\ misGot' = (misGot \/ (cli[e.k] = "live" /\ OwnerOn(e.own, e.k) # pres(e.k)))
   /\ UNCHANGED <<carrierVars, recvQ, outQ, kcpVars, sets, expired, pend, getting, wr, rd>>
 
 TDetach ==
